@@ -102,11 +102,20 @@ func modelInputs(g *Gen, model string) map[string]interface{} {
 }
 
 func runReplay(repo, verif string, con *FuncContract, o *Obligation, model string) (output string, reproduced bool, witness string) {
-	driver := filepath.Join(verif, "replay", "drivers", con.Replay+"_test.go")
+	// "replay name" runs the driver in the contract's package; "replay name@dir" in another package
+	// of the repository (a driver that exercises the function through its callers)
+	drvName, drvDir := con.Replay, ""
+	if i := strings.Index(drvName, "@"); i >= 0 {
+		drvName, drvDir = con.Replay[:i], con.Replay[i+1:]
+	}
+	driver := filepath.Join(verif, "replay", "drivers", drvName+"_test.go")
 	if _, err := os.Stat(driver); err != nil {
 		return "replay driver missing: " + driver, false, ""
 	}
 	rel := strings.TrimPrefix(strings.TrimPrefix(con.PkgPath, modulePath), "/")
+	if drvDir != "" {
+		rel = drvDir
+	}
 	pkgDir := filepath.Join(repo, rel)
 	tmp, err := os.MkdirTemp("", "gvc-replay-")
 	if err != nil {
@@ -132,7 +141,7 @@ func runReplay(repo, verif string, con *FuncContract, o *Obligation, model strin
 	pb, _ := json.Marshal(payload)
 	ctx, cancel := context.WithTimeout(context.Background(), 150*time.Second)
 	defer cancel()
-	cmd := exec.CommandContext(ctx, "go", "test", "-tags", "verif", "-overlay", ovPath, "-vet=off", "-count=1", "-timeout", "120s", "-run", "^TestVerifReplay_"+con.Replay+"$", "-v", "./"+rel)
+	cmd := exec.CommandContext(ctx, "go", "test", "-tags", "verif", "-overlay", ovPath, "-vet=off", "-count=1", "-timeout", "120s", "-run", "^TestVerifReplay_"+drvName+"$", "-v", "./"+rel)
 	cmd.Dir = repo
 	cmd.Env = append(os.Environ(), "GOFLAGS=-mod=mod", "GOPROXY=off", "GOSUMDB=off", "GOTOOLCHAIN=local", "VERIF_REPLAY_MODEL="+string(pb), "GOCACHE="+goCache())
 	var buf bytes.Buffer
